@@ -354,6 +354,9 @@ func runUpgradeCase(ta *TestApp, seed uint64, idx int, rep *Report, profile stri
 				we := time.Unix(b.end, 0).UTC().AddDate(1, 0, 0).Unix()
 				rep.Eval("C16.shift_is_one_calendar_year_utc", cva.StartTime == ws && cva.EndTime == we, idx, 2,
 					fmt.Sprintf("%s: start %d -> %d (one calendar year in UTC: %d), end %d -> %d (%d); process TZ=%s", a, b.start, cva.StartTime, ws, b.end, cva.EndTime, we, time.Local.String()))
+				// the same fact as a statement about replicas: what a node in this process's time zone writes is what a node in UTC writes
+				rep.Eval("C11.upgrade_writes_the_same_accounts_in_every_time_zone", cva.StartTime == ws && cva.EndTime == we, idx, 2,
+					fmt.Sprintf("%s: a node with TZ=%s shifts start %d to %d and end %d to %d; a node in UTC writes %d and %d", a, time.Local.String(), b.start, cva.StartTime, b.end, cva.EndTime, ws, we))
 			}
 		}
 	}
